@@ -495,6 +495,15 @@ func mustPattern(src string) *Term {
 	return patTerm(e)
 }
 
+// mustFactPattern: a (possibly abstract) fact pattern, as used in guarantee tables.
+func mustFactPattern(src string) *Term {
+	e, err := parsePatternExpr(src)
+	if err != nil {
+		panic(fmt.Sprintf("bad fact pattern %q: %v", src, err))
+	}
+	return patFact(e)
+}
+
 func mustClause(src string) Clause {
 	e, err := parsePatternExpr(src)
 	if err != nil {
@@ -521,7 +530,22 @@ func dnf(e ast.Expr) [][]*Term {
 			return out
 		}
 	}
-	return [][]*Term{{patTerm(e)}}
+	return [][]*Term{{patFact(e)}}
+}
+
+// patFact: a clause atom; any call with a bare lower-case head is a (possibly abstract) predicate.
+func patFact(e ast.Expr) *Term {
+	e = unparen(e)
+	if c, ok := e.(*ast.CallExpr); ok {
+		if id, ok := unparen(c.Fun).(*ast.Ident); ok && !strings.HasPrefix(id.Name, "PV_") && id.Name != "_" {
+			var args []*Term
+			for _, a := range c.Args {
+				args = append(args, patTerm(a))
+			}
+			return &Term{K: "fact", S: id.Name, A: args}
+		}
+	}
+	return patTerm(e)
 }
 
 func bareIdent(e ast.Expr) (string, bool) {
